@@ -186,6 +186,15 @@ Definition check_exec (lazy_ttl : Z) (en : option sent) (t : Z) (served : option
   | None => is_miss served lz
   end.
 
+(** the entry is alive, its message has run out and lazy caching is on *)
+Definition is_stale (lazy_ttl : Z) (en : option sent) (t : Z) : bool :=
+  match en with
+  | Some s =>
+    let age := (s_age0 s + (t - s_t0 s))%Z in
+    (age <? s_cl s)%Z && negb (age <? s_ml s)%Z && (0 <? lazy_ttl)%Z
+  | None => false
+  end.
+
 Fixpoint spec_go (lazy_ttl t : Z) (st : list (N * sent)) (ops : list op) (observed : list obs) : bool :=
   match ops, observed with
   | [], [] => true
@@ -208,6 +217,19 @@ Fixpoint spec_go (lazy_ttl t : Z) (st : list (N * sent)) (ops : list op) (observ
       (map (fun p => let s := snd p in (fst p, ((s_age0 s + (t - s_t0 s))%Z, s_ml s, s_cl s), s_rrs s))
            (fold_right sins [] (filter (fun p => let s := snd p in (s_age0 s + (t - s_t0 s) <? s_cl s)%Z) st)))
     && spec_go lazy_ttl t st ops' obs'
+  | OExecR k bg :: ops', BExec served lz :: obs' =>
+    (* the reply of the refresh is stored by exactly the rule for foreground replies *)
+    check_exec lazy_ttl (sfind k st) t served lz &&
+    match bg with
+    | Some m =>
+      if negb (is_stale lazy_ttl (sfind k st) t) then spec_go lazy_ttl t st ops' obs'
+      else if (9223372036 <? lazy_ttl)%Z && existsb (fun r => rr_sec r =? 0) (m_rrs m) then true
+      else match spec_life lazy_ttl m with
+           | Some (a, b) => spec_go lazy_ttl t (sset k (SEnt 0 t a b (no_extra_opt (m_rrs m))) st) ops' obs'
+           | None => spec_go lazy_ttl t st ops' obs'
+           end
+    | None => spec_go lazy_ttl t st ops' obs'
+    end
   | OWait w :: ops', BNone :: obs' => spec_go lazy_ttl (t + Z.max 0 w)%Z st ops' obs'
   | _, _ => false
   end.
@@ -246,6 +268,9 @@ Definition op_nontrivial (o : op) : bool :=
     msg_edge m || (m_rcode m =? 2) || (m_rcode m =? 3) || m_tc m
     || (let mn := spec_min (m_rrs m) in (299 <=? mn) && (mn <=? 301))
   | OWait _ => true
+  | OExecR _ (Some m) =>
+    msg_edge m || negb (m_rcode m =? 0) || m_tc m
+    || (let mn := spec_min (m_rrs m) in (299 <=? mn) && (mn <=? 301))
   | _ => false
   end.
 Definition nontrivial (c : case) : bool :=
